@@ -706,6 +706,9 @@ mod huffman {
                         let byte = (self.pending_byte << (8 - self.pending_bits)) as usize;
                         match &map[byte] {
                             Decode::Void => {
+                                if self.pending_bits == 0 {
+                                    return None;
+                                }
                                 panic!("invalid decoding map");
                             }
                             Decode::Further(_) => {
